@@ -202,7 +202,7 @@ def h_apply(n: int, npos: int, failing: int, s: int, fraises: bool):
 # ---- sync ------------------------------------------------------------------------------------------------
 def h_sync(flavour: int, outcome: int, s: int):
     """
-    pre: 0 <= flavour <= 5 and 0 <= outcome <= 1 and 0 <= s <= 1
+    pre: 0 <= flavour <= 7 and 0 <= outcome <= 1 and 0 <= s <= 1
     post: _[0]
     post: not _[1]
     """
@@ -232,17 +232,26 @@ def h_sync(flavour: int, outcome: int, s: int):
         def __call__(self, x, y=0):
             return plain(x, y)
 
+    class Aw:
+        """An awaitable that is not a coroutine."""
+
+        def __init__(self, x, y):
+            self.x, self.y = x, y
+
+        def __await__(self):
+            return coro(self.x, self.y).__await__()
+
     fl = 0
-    for v in range(6):
+    for v in range(8):
         if flavour == v:
             fl = v
-    fn = [plain, coro, functools.partial(coro, 1), Obj(), lambda x, y=0: coro(x, y), SyncObj()][fl]
+    fn = [plain, coro, functools.partial(coro, 1), Obj(), lambda x, y=0: coro(x, y), SyncObj(), lambda x, y=0: Aw(x, y), functools.partial(plain, 1)][fl]
     ok = True
     wrapped = A.sync(fn)
     if fl == 1 and wrapped is not coro:
         ok = fail("sync:coroutine-function-not-returned-unchanged") and ok
     try:
-        aw = wrapped(y=2) if fl == 2 else wrapped(1, y=2)
+        aw = wrapped(y=2) if fl in (2, 7) else wrapped(1, y=2)
         if not hasattr(aw, "__await__"):
             ok = fail("sync:result-not-awaitable") and ok
             return finish(ok, True, ("sync", fl, outcome))
@@ -270,7 +279,7 @@ GRID = {
     "h_any_iter": lambda: [(n, o, k, i, st, s) for n in range(4) for o in (False, True) for k in range(4) for i in (False, True) for st in (0, 1, 2, 4) for s in (0, 1)],
     "h_await_each": lambda: [(n, st, f, s, a) for n in range(4) for st in (0, 1, 2, 4) for f in range(-1, n) for s in (0, 1) for a in (False, True)],
     "h_apply": lambda: [(n, p, f, s, fr) for n in range(5) for p in range(n + 1) for f in range(-1, n) for s in (0, 1) for fr in (False, True)],
-    "h_sync": lambda: [(f, o, s) for f in range(6) for o in (0, 1) for s in (0, 1)],
+    "h_sync": lambda: [(f, o, s) for f in range(8) for o in (0, 1) for s in (0, 1)],
 }
 
 
@@ -288,7 +297,7 @@ def jobs(tier):
 
 LEVEL = "other"
 BOUNDS = {
-    "quick": "any_iter: all 16 combinations {plain, awaitable} x {list, sync iterator, async generator, class-based async iterator} x {plain items, awaitable items}, length 0..4, every number of consumer steps 0..5, awaitables suspending 0..1 times; await_each: length 0..4, steps, one failing awaitable at any position, list or lazy iterable; apply: 0..4 arguments, every positional/keyword split, one failing argument, failing function; sync: def / async def / partial(async def) / callable object returning a coroutine / lambda returning a coroutine / sync callable object, returning or raising",
+    "quick": "any_iter: all 16 combinations {plain, awaitable} x {list, sync iterator, async generator, class-based async iterator} x {plain items, awaitable items}, length 0..4, every number of consumer steps 0..5, awaitables suspending 0..1 times; await_each: length 0..4, steps, one failing awaitable at any position, list or lazy iterable; apply: 0..4 arguments, every positional/keyword split, one failing argument, failing function; sync: def / async def / partial(async def) / callable object returning a coroutine / lambda returning a coroutine / sync callable object / function returning a non-coroutine awaitable / partial(def), returning or raising",
     "thorough": "lengths 0..6",
 }
 OUTSIDE = ["lengths above the bound", "awaitable items that are themselves async iterables"]
